@@ -21,6 +21,8 @@ def run(chk):
     plan = [
         dict(flavour="asan-ubsan", exe="record_algo", module="TraceAlgo", scen="netw", runs=(1000, 25000), opts={}),
         dict(flavour="rel", exe="record_algo", module="TraceAlgo", scen="netw", runs=(1000, 25000), opts={}),
+        # the net weights the circuit stores are those the caller gave (setNetWeights / addNet / setNets histories)
+        dict(flavour="asan-ubsan", exe="record_proto", scen="api", runs=(200, 5000), opts={}),
     ]
     run_plan(chk, "C17", plan, nontrivial)
     chk.cov["rule"] = ("seeded small net lists (1..6 cells, nets of degree 2..4, fixed pins, dyadic offsets k/4, dyadic weights 1/4..2 incl. values below 1, "
